@@ -20,6 +20,12 @@ func TestC16(t *testing.T) {
 	defer m.Done()
 	m.Rule("case = (pw, salt, N, r, p, keyLen) drawn from the quantifier's boundary sets (valid N=2^1..2^12, invalid N {0,1,3,6,negatives,huge}, r,p in -2..8 and overflow-sized, keyLen -5..300); oracle = ref RFC 7914 (h/ref) + python hashlib.scrypt witness; validity predicate from RFC 7914 §2 + the documented limits; distinct key = (class of N, r, p, keyLen); non-trivial = reached an oracle comparison or an expected-error/panic observation")
 	m.Assume("ref scrypt (h/ref/scrypt.go) is validated against the RFC 7914 vectors in its own unit test and cross-checked here against python hashlib (OpenSSL) on valid cases")
+	if mon.RaceBuild {
+		// race variant: only the shared-value concurrency streams (c16_conc_test.go)
+		c16Conc(m)
+		return
+	}
+	defer c16Conc(m)
 	py, pyErr := ext.StartPy()
 	if pyErr != nil {
 		m.Note("python witness unavailable: " + pyErr.Error())
